@@ -18,8 +18,13 @@ Correspondence: for every monitored entry point the Lean machine `alias` is aske
 IR transcription of that entry point (asarray-branch bits = copy / no copy as implied by the
 argument layout, every code-branch bit both ways) is accepted by the ownership monitor.
 Runtime violation -> oracle failure; runtime clean but transcription rejected / missing -> corr.
-Read-path agreement (dict / tuple / pandas / single field / iteration / get_field / iterelites)
-is checked at runtime against `data()`.
+Read-path agreement (dict / tuple / pandas / single field / iteration / get_field / iterelites /
+best_elite / retrieve) is checked at runtime against `data()`; entries of object fields are compared
+by Python type and value, and against the payloads that were submitted.
+Constructors (every array-valued argument of archives, emitters, operators, gradient optimizers) and
+ArrayStore.from_raw_dict are monitored entry points like the others: the constructed object joins the
+case's world, so retention shows up both in the object graph and in later behaviour (centroids /
+routing, what ask() emits on an empty archive, adds to the loaded and to the exporting store).
 """
 import collections
 import copy
@@ -65,7 +70,15 @@ RULE = ("exhaustive enumeration of (entry point, argument layout in {python list
         "get_field / iterelites, element-wise against data()) are compared for every archive class and ArrayStore x "
         "dtype x three dimension profiles: solution_dim, measure_dim and the vector extra field range over 1..13, "
         "vectors of >= 11 components occur for every class and dtype in every run, all components of a vector are "
-        "pairwise distinct; the strata archive.read, archive.iter and store also draw such dimensions. A case "
+        "pairwise distinct; the strata archive.read, archive.iter and store also draw such dimensions. Object fields: "
+        "archives and stores also come with `tags` ((2,), object: non-scalar entries), `meta` ((), object) holding "
+        "payloads of several Python types (user class, dict, list, str) and object solutions via the dict form of "
+        "dtype (crossed with class x dtype in archive.best_elite, archive.iter, readpaths; drawn elsewhere); object "
+        "entries are compared by Python TYPE and value on every read path (incl. best_elite, retrieve, "
+        "retrieve_single) and against what was submitted. Constructors: every array-valued constructor argument of "
+        "the archives, emitters (incl. operator_kwargs) and gradient optimizers x layout x dtype, followed by adds / "
+        "ask probes. ArrayStore.from_raw_dict from caller arrays (exact / view / strided) and from as_raw_dict() "
+        "output, followed by adds to both stores. One deterministic case for the open finding D40. A case "
         "is non-trivial when a monitored call receives at least one ndarray argument that np.asarray would not "
         "copy, or returns at least one array, on a non-empty callee state; counted once per distinct op list")
 PARTIAL = [
@@ -628,6 +641,7 @@ class World:
         self.registry = {}  # payload id -> typed fingerprint of the payload as submitted
         self.probe = []  # results of unmonitored probe calls (emitter.ask() ...), part of the observables
         self.store2 = None  # a store built by ArrayStore.from_raw_dict
+        self.watch_geometry = any(op.get("op") == "construct" for op in case.get("ops", []))
         self.archive = make_archive(self.kind, self.dt, case) if self.kind else None
         self.store = None
         self.opt = None
@@ -676,7 +690,7 @@ class World:
         """Every observable of the callee, as value fingerprints."""
         o = {}
         if self.archive is not None:
-            o["archive"] = obs_archive(self.archive)
+            o["archive"] = obs_archive(self.archive, self.watch_geometry)
         if self.store is not None:
             o["store"] = obs_store(self.store)
         if self.store2 is not None:
@@ -700,7 +714,7 @@ def _hexf(x):
     return None if x is None else float(x).hex()
 
 
-def obs_archive(a):
+def obs_archive(a, geometry=False):
     d = a.data()
     o = {"len": len(a), "data": {k: fp_value(v) for k, v in d.items()}}
     st = a.stats
@@ -712,6 +726,8 @@ def obs_archive(a):
     if cls == "SlidingBoundariesArchive":
         o["boundaries"] = [fp_value(b) for b in a.boundaries]
         o["buffer"] = int(a._buffer.size)  # pylint: disable=protected-access
+    if not geometry:
+        return o
     # geometry and routing: what a constructor argument kept by reference would change
     geo = {}
     for name in ("lower_bounds", "upper_bounds", "centroids", "samples", "dims"):
@@ -1037,7 +1053,7 @@ CTOR_ARGS = {
     "genetic": ["x0", "initial_solutions", "bounds", "operator_kwargs.sigma"],
     "go": ["sigma", "x0", "initial_solutions", "bounds"],
     "es": ["x0", "bounds"],
-    "ga": ["x0", "bounds"],
+    "ga": ["x0"],  # (this emitter rejects bounds)
     "adam": ["theta0"],
     "ascent": ["theta0"],
 }
@@ -1129,7 +1145,10 @@ def calls_construct(w, op):
            "iso": "IsoLineEmitter", "genetic": "GeneticAlgorithmEmitter", "go": "GradientOperatorEmitter",
            "es": "EvolutionStrategyEmitter", "ga": "GradientArborescenceEmitter", "adam": "AdamOpt",
            "ascent": "GradientAscentOpt"}[target]
-    yield Call(f"{cls}({argname}=...)", CTOR_LEAN.get(target, "Emitter.__init__"), [], a, invoke, must_succeed=True)
+    lean_name = CTOR_LEAN.get(target, "Emitter.__init__")
+    bits = {"CVTArchive.__init__": [("f", argname == "samples")],
+            "Emitter.__init__": [("f", argname == "initial_solutions")]}.get(lean_name, [])
+    yield Call(f"{cls}({argname}=...)", lean_name, bits, a, invoke, must_succeed=True)
 
 
 def calls_ask_probe(w, op):
@@ -1899,7 +1918,12 @@ def gen_sliding(rng, c):
             t["n"] = rng.choice([1, 2, 3])
         ops.append(t)
     ops.append({"op": "data", "rt": "dict"})
-    return {"arch": "sba", "dtype": d, "remap": rm, "buf": bf, "ops": ops}
+    case = {"arch": "sba", "dtype": d, "remap": rm, "buf": bf, "ops": ops}
+    if rng.random() < 0.4:
+        # object fields through the buffer and the remaps: still what was submitted, by type and value
+        ops.append({"op": "readpaths"})
+        with_obj(case, rng.choice(OBJ_VARIANTS[1:]))
+    return case
 
 
 READ_TARGETS = ([("retrieve", L) for L in LAYOUTS] + [("retrieve_single", L) for L in LAYOUTS] +
@@ -1938,6 +1962,8 @@ def gen_archive_read(rng, c):
     if rng.random() < 0.34:
         case["dims"] = pick_dims(rng, rng.choice(DIM_PROFILES))
         ops.append({"op": "readpaths"})
+    if rng.random() < 0.3:
+        with_obj(case, rng.choice(OBJ_VARIANTS[1:]))
     return case
 
 
@@ -2000,6 +2026,9 @@ def combos_store():
             for sel in ("all", "one", "some"):
                 out.append((d, "store_data", None, rt, sel))
         out.append((d, "store_raw", None, None, None))
+        for L in NOCOPY_LAYOUTS:
+            out.append((d, "store_from_raw", L, None, "copy"))
+        out.append((d, "store_from_raw", None, None, "readonly"))
     return out
 
 
@@ -2013,12 +2042,16 @@ def gen_store(rng, c):
         t["n"] = rng.choice([1, 3, 5])
     if rt is not None:
         t["rt"], t["sel"] = rt, sel
+    if o == "store_from_raw":
+        t["src"] = sel
     ops.append(t)
     ops += store_prefix(rng, 1)
     case = {"store": True, "dtype": d, "ops": ops}
     if rng.random() < 0.34:
         case["dims"] = pick_dims(rng, rng.choice(DIM_PROFILES))
         ops.append({"op": "readpaths"})
+    if rng.random() < (0.5 if o == "store_from_raw" else 0.3):
+        with_obj(case, rng.choice(OBJ_VARIANTS[1:]))
     return case
 
 
@@ -2155,6 +2188,32 @@ def gen_viz(rng, c):
     return {"arch": k, "dtype": d, "ops": ops}
 
 
+def combos_ctor(quick):
+    """(constructor x array-valued argument x layout) in full; x dtype in the thorough tier, dtype rotated in
+    the quick tier."""
+    base = [(t, a, L) for t, args in CTOR_ARGS.items() for a in args for L in LAYOUTS]
+    if quick:
+        return [(t, a, L, list(DTYPES)[i % 2]) for i, (t, a, L) in enumerate(base)]
+    return [(t, a, L, d) for (t, a, L) in base for d in DTYPES]
+
+
+def gen_ctor(rng, c):
+    t, a, L, d = c
+    first = {"op": "construct", "target": t, "arg": a, "layout": L, "seed": rng.randrange(10**6)}
+    if t in ("cvt", "grid", "sba"):
+        ops = [first] + prefix_adds(rng, rng.randint(2, 3), t) + [{"op": "data", "rt": "dict"}]
+        case = {"dtype": d, "ops": ops}
+        if rng.random() < 0.3:
+            case["dims"] = [rng.randint(1, 5), rng.randint(1, 6), rng.randint(1, 4)]
+        return case
+    if t in ("adam", "ascent"):
+        return {"dtype": d, "ops": [first] + [{"op": "step", "seed": rng.randrange(10**6), "layout": "list"}
+                                              for _ in range(2)]}
+    ops = [first, {"op": "ask_probe"}, {"op": "add", "n": 3, "seed": rng.randrange(10**6), "layout": "list"},
+           {"op": "ask_probe"}, {"op": "data", "rt": "dict"}]
+    return {"arch": rng.choice(["grid", "grid", "cvt"]), "dtype": d, "ops": ops}
+
+
 def combos_helpers():
     names = ["validate_batch", "validate_single", "batch_entries_with_threshold", "single_entry_with_threshold",
              "compute_objective_sum", "compute_best_index"]
@@ -2254,8 +2313,8 @@ def strata(ctx):
         ("archive.add", combos_archive_add(), gen_archive_add, (1, 8), (4, 50)),
         ("sliding.add", combos_sliding(ctx.quick), gen_sliding, (1, 6), (8, 60)),
         ("archive.read", combos_archive_read(), gen_archive_read, (1, 6), (5, 70)),
-        ("archive.best_elite", combos_best(), gen_best, (3, 30), (2, 20)),
-        ("archive.iter", combos_iter(), gen_iter, (3, 30), (2, 20)),
+        ("archive.best_elite", combos_best(), gen_best, (1, 10), (3, 20)),
+        ("archive.iter", combos_iter(), gen_iter, (1, 10), (3, 20)),
         ("store", combos_store(), gen_store, (1, 8), (3, 30)),
         ("scheduler.tell", combos_sched(ctx.quick), gen_sched, (1, 5), (8, 90)),
         ("dqd.arborescence", combos_dqd("ga", ctx.quick), gen_dqd, (1, 6), (4, 40)),
@@ -2264,6 +2323,7 @@ def strata(ctx):
         ("opt.step", combos_opt(), gen_opt, (2, 20), (1, 10)),
         ("visualize.df", combos_viz(ctx.quick), gen_viz, (1, 4), (6, 80)),
         ("helpers", combos_helpers(), gen_helpers, (1, 5), (3, 30)),
+        ("constructors", combos_ctor(ctx.quick), gen_ctor, (1, 5), (5, 40)),
         ("readpaths", combos_readpaths(ctx.quick), gen_readpaths, (1, 10), (4, 40)),
     ]
 
@@ -2291,6 +2351,13 @@ def run(ctx):
         # warm-up (numba compilation of numpy_groupies / CMA-ES kernels) outside the strata's time budgets
         run_case({"arch": "grid", "dtype": "f64", "sched": "plain", "emitters": EMITTER_SETS["es"],
                   "ops": [{"op": "tell", "seed": 1, "layout": "list"}]})
+        # the open known finding D40: one deterministic case on every run
+        d40 = {"ops": [{"op": "d40"}], "stratum": "known-findings"}
+        f = run_case(d40)
+        ctx.evaluations += 1
+        ctx.count("known-findings")
+        if f is not None:
+            ctx.fail(f, d40)
         stopped = False
         for name, combos, gen, states, budget in strata(ctx):
             n = len(combos) * (states[0] if ctx.quick else states[1])
